@@ -42,12 +42,17 @@ SameRowBag(a, b) == Len(a) = Len(b) /\ \A j \in 1..Len(a) : CountIn(a, a[j]) = C
 SameInst(x, y) == x.cls = y.cls /\ SameRow(x.f, y.f)
 InstCount(s, x) == Cardinality({j \in 1..Len(s) : SameInst(s[j], x)})
 SameInstBag(a, b) == Len(a) = Len(b) /\ \A j \in 1..Len(a) : InstCount(a, a[j]) = InstCount(b, a[j])
-InferVerdict(exp, obs) ==
-  IF \E j \in 1..Len(obs) : ~obs[j].fresh THEN "infer.not-new"
+\* fresh: every produced instance must be a new object (where the conclusions mention every variable of the rule, so
+\* that no two assignments build the same instance; otherwise the library may hand out the instance it built before)
+\* (fresh = FALSE also means: a projection - several assignments build the same conclusion, which the library produces
+\* once per distinct binding of the variables the conclusions mention; judged as a set, like a projected selection)
+InferVerdictF(exp, obs, fresh) ==
+  IF fresh /\ \E j \in 1..Len(obs) : ~obs[j].fresh THEN "infer.not-new"
   ELSE IF \E j \in 1..Len(obs) : InstCount(exp, obs[j]) = 0 THEN "infer.extra"
   ELSE IF \E j \in 1..Len(exp) : InstCount(obs, exp[j]) = 0 THEN "infer.missing"
-  ELSE IF \E j \in 1..Len(exp) : InstCount(obs, exp[j]) # InstCount(exp, exp[j]) THEN "infer.multiplicity"
+  ELSE IF fresh /\ \E j \in 1..Len(exp) : InstCount(obs, exp[j]) # InstCount(exp, exp[j]) THEN "infer.multiplicity"
   ELSE "ok"
+InferVerdict(exp, obs) == InferVerdictF(exp, obs, TRUE)
 
 EvVerdict(t, j) ==
   LET ev == t.evs[j] IN
@@ -86,7 +91,7 @@ EvVerdict(t, j) ==
             \* C05 say about any query whatever its meaning; nosem: the tree uses branches whose meaning the listed
             \* properties do not fix (next_rule), so only that relation is judged
             IF ev.exc # "none" THEN "exception"
-            ELSE LET sem == IF "nosem" \in DOMAIN ev /\ ev.nosem THEN "ok" ELSE InferVerdict(RuleSeq(q, W), ev.insts)
+            ELSE LET sem == IF "nosem" \in DOMAIN ev /\ ev.nosem THEN "ok" ELSE InferVerdictF(RuleSeq(q, W), ev.insts, ~("concl" \in DOMAIN q /\ q.concl = "second"))
                  IN IF sem # "ok" THEN sem
                     ELSE IF "eqinst" \in DOMAIN ev /\ ev.eqinst > 0 /\ ~SameInstBag(ev.insts, t.evs[ev.eqinst].insts)
                          THEN "insts.differ-from-other-evaluation"
